@@ -732,7 +732,7 @@ theorem sliceBytes_trim (w : World) (s : Slice) (r : Nat) (hr : r ≤ s.len) :
     rw [List.drop_take, List.drop_drop]
 
 theorem trim_consumed (w : World) (v : Iov) (s : Slice) (rest : List Slice) (r : Nat) (hinv : IovInv w v)
-    (hs : v.slices = s :: rest) (hr : 0 < r) (hr2 : r < s.len) (hnb : NoBrBelow v 1) :
+    (hs : v.slices = s :: rest) (_hr : 0 < r) (hr2 : r < s.len) (hnb : NoBrBelow v 1) :
     Consumed w v { v with slices := { s with off := s.off + r, len := s.len - r } :: rest,
                           consumedSize := v.consumedSize + r } r := by
   have hsok := hinv.slices_ok s (by rw [hs]; simp)
